@@ -765,6 +765,11 @@ static bool spinUntil(const std::function<bool()> &cond, int ms = 20000)
 
 static int socksCounter = 0;
 static bool socksAvailable = true;
+// accept(filePath) on the SOCKS5 receive path: when set, the receiving application lets the library open this path
+// (oracle only, no model lines); the whole file is read back inside finished()
+static QString g_socksPath;
+static QByteArray g_socksDiskAtFinished;
+static bool g_socksPathOk = false;
 
 // chunks: the byte strings written; `disconnectAtEnd`: close the connection afterwards
 static void runSocks(const QByteArray &announced, bool withHash, bool withSize, const std::vector<QByteArray> &chunks, bool faulty,
@@ -775,7 +780,10 @@ static void runSocks(const QByteArray &announced, bool withHash, bool withSize, 
     w.r.mgr->setSupportedMethods(QXmppTransferJob::SocksMethod);
     SocksRun run(dev);
     run.data = announced;
-    w.acceptInto = run.sink.device();
+    const bool pathMode = !g_socksPath.isEmpty();
+    w.acceptInto = pathMode ? nullptr : run.sink.device();
+    w.acceptPath = g_socksPath;
+    g_socksDiskAtFinished.clear(); g_socksPathOk = false;
     w.incoming = nullptr;
     w.r.out.clear();
     const QString sid = QStringLiteral("socks%1").arg(++socksCounter);
@@ -800,7 +808,13 @@ static void runSocks(const QByteArray &announced, bool withHash, bool withSize, 
     if (!run.rj || run.rj->method() != QXmppTransferJob::SocksMethod) {
         fprintf(stderr, "harness: SOCKS offer not accepted\n"); exit(3);
     }
-    QObject::connect(run.rj, &QXmppTransferJob::finished, [&run]() { run.rFin++; });
+    QObject::connect(run.rj, &QXmppTransferJob::finished, [&run, pathMode]() {
+        run.rFin++;
+        if (pathMode && run.rFin == 1) {
+            QFile f(g_socksPath);
+            if (f.open(QIODevice::ReadOnly)) g_socksDiskAtFinished = f.read(1 << 26);
+        }
+    });
     QObject::connect(run.rj, &QXmppTransferJob::progress, [&run](qint64 done, qint64) { run.rDone = done; });
     const QString hosts = QStringLiteral("<iq id=\"hosts1\" to=\"%1\" from=\"%2\" type=\"set\"><query xmlns=\"http://jabber.org/protocol/bytestreams\" sid=\"%3\">"
                                          "<streamhost jid=\"%2\" host=\"127.0.0.1\" port=\"%4\"/></query></iq>").arg(RJID, SJID, sid).arg(server.serverPort());
@@ -812,17 +826,17 @@ static void runSocks(const QByteArray &announced, bool withHash, bool withSize, 
         w.r.mgr->setSupportedMethods(QXmppTransferJob::InBandMethod);
         return;
     }
-    corr(op, "ok|" + run.obs());
+    if (!pathMode) corr(op, "ok|" + run.obs());
     std::string hist = op + ";";
     for (auto &c : chunks) {
-        const qint64 before = run.sink.offered();
+        const qint64 before = pathMode ? run.rDone : run.sink.offered();
         accepted->write(c);
         accepted->flush();
-        spinUntil([&]() { return run.sink.offered() >= before + c.size() || run.rj->state() == QXmppTransferJob::FinishedState; });
+        spinUntil([&]() { return (pathMode ? run.rDone : run.sink.offered()) >= before + c.size() || run.rj->state() == QXmppTransferJob::FinishedState; });
         QCoreApplication::processEvents();
         std::string o = "chunk " + (c.isEmpty() ? std::string("-") : hex((const unsigned char *)c.constData(), c.size()));
-        hist += o + ";";
-        corr(o, run.obs());
+        hist += o.substr(0, 140) + ";";
+        if (!pathMode) corr(o, run.obs());
     }
     // the peer closes the connection
     const bool wasFinished = run.rj->state() == QXmppTransferJob::FinishedState;
@@ -830,8 +844,22 @@ static void runSocks(const QByteArray &announced, bool withHash, bool withSize, 
     spinUntil([&]() { return run.rj->state() == QXmppTransferJob::FinishedState; }, 20000);
     QCoreApplication::processEvents();
     (void)wasFinished;
-    corr("disc", run.obs());
+    if (!pathMode) corr("disc", run.obs());
     hist += "disc;";
+    if (pathMode) {
+        // accept(filePath): success ⇒ the WHOLE file on disk (length and content), as seen from finished(), is what was sent
+        const bool ok = run.rj->state() == QXmppTransferJob::FinishedState && run.rj->error() == QXmppTransferJob::NoError;
+        g_socksPathOk = ok;
+        if (!ok) oracleFail("C19:accept-path-honest-run-not-successful", label);
+        else if (g_socksDiskAtFinished != announced)
+            oracleFail("C19:accept-path-file-differs-from-sent-bytes", label + " sent=" + std::to_string(announced.size()) + " on-disk=" + std::to_string(g_socksDiskAtFinished.size()));
+        else oraclePass()++;
+        stat("socks_path_runs");
+        delete run.rj;
+        w.incoming = nullptr; w.acceptInto = nullptr; w.acceptPath.clear(); w.r.out.clear();
+        w.r.mgr->setSupportedMethods(QXmppTransferJob::InBandMethod);
+        return;
+    }
     // oracle: success ⇒ identical bytes; honest ⇒ success; truncated/altered ⇒ not success (when the offer carried what is needed)
     QByteArray all; for (auto &c : chunks) all += c;
     const bool success = run.rj->state() == QXmppTransferJob::FinishedState && run.rj->error() == QXmppTransferJob::NoError;
@@ -850,12 +878,18 @@ static void runSocks(const QByteArray &announced, bool withHash, bool withSize, 
 // The application lets the library open the file (QXmppTransferJob::accept(const QString &)).  Oracle only (no model
 // lines): success ⇒ the file ON DISK, as an application sees it from its finished() handler, equals the bytes sent;
 // a file that cannot hold the data (/dev/full: every flush fails with ENOSPC) must not end in success.
-static void runAcceptPath(const QByteArray &data, const QString &path, const std::string &what)
+// `previous`: what the destination path already holds (null QByteArray = no such file)
+static void runAcceptPath(const QByteArray &data, const QString &path, const std::string &what, const QByteArray &previous = QByteArray(),
+                          int blockSize = 4096)
 {
-    if (path.startsWith(QStringLiteral("/verif/"))) QFile::remove(path);
-    Transfer t(4096, 4096, true, data, DevSpec());
+    if (path.startsWith(QStringLiteral("/verif/"))) {
+        QFile::remove(path);
+        if (!previous.isNull()) { QFile f(path); if (f.open(QIODevice::WriteOnly)) { f.write(previous); f.close(); } }
+    }
+    Transfer t(blockSize, 4096, true, data, DevSpec());
     t.pathMode = path;
-    const std::string label = "accept-path " + what + " size=" + std::to_string(data.size());
+    const std::string label = "accept-path " + what + " size=" + std::to_string(data.size()) +
+        (previous.isNull() ? std::string(" no-previous-file") : " previous-file=" + std::to_string(previous.size()) + "bytes");
     printf("I %s\n", label.c_str()); fflush(stdout);
     const bool started = t.start();
     if (started) {
@@ -872,9 +906,17 @@ static void runAcceptPath(const QByteArray &data, const QString &path, const std
     } else if (what == "full") {
         if (rOk) oracleFail("C19:accept-path-write-error-unnoticed", label); else oraclePass()++;
     } else {
+        // success ⇒ the WHOLE file on disk (length and content), as an application sees it from finished(), is what was sent
         if (!rOk) oracleFail("C19:accept-path-honest-run-not-successful", label);
-        else if (t.onDiskAtFinished != data) oracleFail("C19:accept-path-file-incomplete-at-finished", label + " on-disk=" + std::to_string(t.onDiskAtFinished.size()));
+        else if (t.onDiskAtFinished.size() < data.size()) oracleFail("C19:accept-path-file-incomplete-at-finished", label + " on-disk=" + std::to_string(t.onDiskAtFinished.size()));
+        else if (t.onDiskAtFinished != data) oracleFail("C19:accept-path-file-differs-from-sent-bytes", label + " on-disk=" + std::to_string(t.onDiskAtFinished.size()));
         else oraclePass()++;
+        // one model line: the honest transfer into a path holding `previous`, opened the way the model says the code opens it
+        if (data.size() <= 4096 && previous.size() <= 4096 && t.rj) {
+            const std::string prevHex = previous.isEmpty() ? std::string("-") : hex((const unsigned char *)previous.constData(), previous.size());
+            corr("pathrun " + std::to_string(blockSize) + " " + prevHex + " hex:" + hex((const unsigned char *)data.constData(), data.size()),
+                 std::string("R ") + stateName(t.rj->state()) + " " + errName(t.rj->error()) + " " + std::to_string(t.onDiskAtFinished.size()) + " " + digest(t.onDiskAtFinished));
+        }
     }
     stat("accept_path_runs");
 }
@@ -1395,6 +1437,31 @@ int main(int argc, char **argv)
             QDir().mkpath(QStringLiteral("/verif/.build/scratch_c19"));
             const QString path = QStringLiteral("/verif/.build/scratch_c19/accept_path_%1.bin").arg(QCoreApplication::applicationPid());
             for (long n : { 0L, 1L, 5000L, 16384L, 20000L, 70000L }) runAcceptPath(makeContent("rnd", n, rng), path, "file");
+            // the destination already exists: none / empty / shorter / same length, other content / longer (in-band and SOCKS5)
+            for (int b : { 16, 4096 })
+                for (long n : { 0L, 1L, 40L, 5000L }) {
+                    if (b == 16 && n > 100) continue;
+                    QByteArray d = makeContent("rnd", n, rng);
+                    QByteArray same = makeContent("rnd", n, rng);
+                    std::vector<QByteArray> prevs = { QByteArray(), QByteArray(""), makeContent("rnd", n / 2, rng), same,
+                                                      makeContent("rnd", n + 1, rng), makeContent("rnd", 2 * n + 3000, rng) };
+                    for (auto &pv : prevs) {
+                        if (pv.size() > 4096 && b == 16) continue;
+                        runAcceptPath(d, path, "file", pv, b);
+                        stat("accept_path_previous_file_runs");
+                    }
+                }
+            for (long n : { 1L, 40L, 5000L }) {
+                QByteArray d = makeContent("rnd", n, rng);
+                for (const QByteArray &pv : { QByteArray(), makeContent("rnd", n / 2, rng), makeContent("rnd", n, rng), makeContent("rnd", 3 * n + 7, rng) }) {
+                    QFile::remove(path);
+                    if (!pv.isNull()) { QFile f(path); if (f.open(QIODevice::WriteOnly)) { f.write(pv); f.close(); } }
+                    g_socksPath = path;
+                    runSocks(d, true, true, { d.left(int(n / 2)), d.mid(int(n / 2)) }, false,
+                             "socks accept-path size=" + std::to_string(n) + (pv.isNull() ? std::string(" no-previous-file") : " previous-file=" + std::to_string(pv.size()) + "bytes"));
+                    g_socksPath.clear();
+                }
+            }
             QFile::remove(path);
             if (QFile::exists(QStringLiteral("/dev/full"))) for (long n : { 1L, 5000L, 70000L }) runAcceptPath(makeContent("rnd", n, rng), QStringLiteral("/dev/full"), "full");
             runAcceptPath(makeContent("rnd", 100, rng), QStringLiteral("/verif/.build/scratch_c19/no-such-dir/x.bin"), "unwritable");
